@@ -407,7 +407,9 @@ func (g *gen) next() HOp {
 			cr := clientRedirect(t.client)
 			op.Redirect = Pick(r, []string{"", "https://evil.example/cb", cr + "/", strings.ToUpper(cr),
 				// the same URI under another encoding: still a different string
-				strings.Replace(cr, "/cb", "/c%62", 1), url.QueryEscape(cr), strings.Replace(cr, "example", "ex%61mple", 1)})
+				strings.Replace(cr, "/cb", "/c%62", 1), url.QueryEscape(cr), strings.Replace(cr, "example", "ex%61mple", 1),
+				// the same host under another port, and without one
+				otherPort(cr, ":49152"), otherPort(cr, "")})
 		} else if op.Redirect == "" && r.Chance(30) {
 			op.Redirect = clientRedirect(t.client)
 		}
@@ -830,6 +832,19 @@ func (g *gen) next() HOp {
 		nc.Public = g.orig[i].Public
 		return HOp{Kind: "setclient", Client: i, NewClient: &nc}
 	}
+}
+
+// otherPort replaces (or adds, or with port == "" removes) the port of a redirect URI.
+func otherPort(u, port string) string {
+	pu, err := url.Parse(u)
+	if err != nil {
+		return u + port
+	}
+	if port == "" && pu.Port() == "" {
+		port = ":8443"
+	}
+	pu.Host = pu.Hostname() + port
+	return pu.String()
 }
 
 // genHistory generates and executes one history.
